@@ -50,7 +50,22 @@ VscIdsOf(e) == [ i \in DOMAIN e.res.recv |-> e.res.recv[i].id ]
 (* ----------------------------------------------------------------------- *)
 
 G0(s) == [ sets |-> << >>, pkt |-> << >>, recvMax |-> << >>, blockVsc |-> s.vscId, lpsPrev |-> s.lps,
-           expSent |-> << >>, sent |-> << >> ]
+           expSent |-> << >>, sent |-> << >>,
+           replaced |-> {},                 \* C06: [c, k, v, until] for keys replaced on a launched consumer
+           dueSeq |-> << >>, nLaunch |-> 0, \* C10: consumers due in this block, in queue order, and how many were processed
+           remSeq |-> << >>, nRemove |-> 0,
+           firstStop |-> << >>,             \* C11: consumer |-> earliest allowed deletion time (first stop + U)
+           meter0 |-> s.meter, replSum |-> 0, jailSum |-> 0, maxJ |-> 0, lastRepl |-> -1000000,   \* C09
+           blockSent |-> << >>,             \* C09: consumer chain |-> packet sending was permitted at its last end-block
+           removeFailed |-> {},
+           forged |-> {} ]                  \* consumer chains that behaved maliciously (their own invariants are not claimed)
+
+\* flattened ids of the time-queue entries that are due at time `now`
+FlattenDue(q, now) ==
+  LET F[i \in 0..Len(q)] == IF i = 0 THEN << >> ELSE IF q[i].t <= now THEN F[i-1] \o q[i].ids ELSE F[i-1]
+  IN  F[Len(q)]
+QueuedIds(q) == UNION { SeqToSet(q[i].ids) : i \in DOMAIN q }
+Take(s, n) == SubSeq(s, 1, Min2(n, Len(s)))
 
 
 NextG(e, np) ==
@@ -59,7 +74,8 @@ NextG(e, np) ==
     CASE e.a = "PLaunchOK" ->
            LET c == e.args.c IN
            [g EXCEPT !.sets = (c :> (0 :> KP(np.cons[c].cvs))) @@ g.sets,
-                     !.pkt  = (c :> << >>) @@ g.pkt]
+                     !.pkt  = (c :> << >>) @@ g.pkt,
+                     !.nLaunch = g.nLaunch + 1]
       [] e.a = "PQueueVSC" ->
            LET c == e.args.c
                old == IF c \in DOMAIN g.sets THEN g.sets[c] ELSE << >>
@@ -74,12 +90,44 @@ NextG(e, np) ==
              THEN [g EXCEPT !.expSent = (c :> p.cons[c].pendingVSC) @@ g.expSent]
              ELSE g
       [] e.a = "Block" ->
-           [g EXCEPT !.blockVsc = np.vscId, !.lpsPrev = np.lps, !.expSent = << >>]
+           [g EXCEPT !.blockVsc = np.vscId, !.lpsPrev = np.lps, !.expSent = << >>,
+                     !.dueSeq = << >>, !.nLaunch = 0, !.remSeq = << >>, !.nRemove = 0]
+      [] e.a = "PLaunchDue" -> [g EXCEPT !.dueSeq = Take(FlattenDue(p.launchQ, np.t), 200), !.nLaunch = 0]
+      [] e.a \in {"PLaunchFail"} -> [g EXCEPT !.nLaunch = g.nLaunch + 1]
+      [] e.a = "PRemoveDue" -> [g EXCEPT !.remSeq = Take(FlattenDue(p.removeQ, np.t), 200), !.nRemove = 0]
+      [] e.a = "PRemoveOK" -> [g EXCEPT !.nRemove = g.nRemove + 1]
+      [] e.a = "PBeginCIS" ->
+           IF np.meter > p.meter
+             THEN [g EXCEPT !.replSum = g.replSum + (np.meter - p.meter), !.lastRepl = np.t]
+             ELSE g
+      [] e.a = "PRemoveFail" -> [g EXCEPT !.nRemove = g.nRemove + 1, !.removeFailed = g.removeFailed \cup {e.args.c}]
+      [] e.a = "PEndCIS" ->
+           [g EXCEPT !.replaced = { r \in g.replaced : r.until > np.t /\ r.c \in DOMAIN np.cons /\ np.cons[r.c].phase # "deleted" }]
+      [] (Txn(e, "AssignKey") \/ Txn(e, "OptIn")) /\ OkTx(e) /\ Has(e.args, "key") ->
+           LET c == e.args.c  v == e.args.v IN
+           IF c \in DOMAIN p.cons /\ p.cons[c].phase = "launched" /\ v \in DOMAIN p.cons[c].valKey
+             THEN [g EXCEPT !.replaced = g.replaced \cup { [c |-> c, k |-> p.cons[c].valKey[v], v |-> v, until |-> np.t + np.U] }]
+             ELSE g
       [] OTHER -> g
+  ELSE IF e.a = "Forge" THEN [g EXCEPT !.forged = g.forged \cup {e.chain}]
   ELSE
     IF Txn(e, "Recv") /\ OkTx(e) /\ Has(e.res, "recv") /\ \E i \in DOMAIN e.res.recv : e.res.recv[i].type = "vsc"
       THEN [g EXCEPT !.recvMax = (e.chain :> Max({RecvMax(e.chain)} \cup { e.res.recv[i].id : i \in { j \in DOMAIN e.res.recv : e.res.recv[j].type = "vsc" } })) @@ g.recvMax]
       ELSE g
+
+\* ghost updates that depend only on the observed state change (stops, consumer-initiated jailing)
+NextG2(e, np, g1) ==
+  IF e.a = "Init" \/ ~IsProv(e) THEN g1
+  ELSE
+    LET newStops == { c \in DOMAIN np.cons : c \in DOMAIN p.cons /\ p.cons[c].phase = "launched" /\ np.cons[c].phase = "stopped" }
+        fs == [ c \in DOMAIN g1.firstStop \cup newStops |->
+                  IF c \in DOMAIN g1.firstStop THEN g1.firstStop[c] ELSE np.t + np.U ]
+        jailedNow == IF Txn(e, "Recv") /\ OkTx(e)
+                       THEN { v \in DOMAIN np.vals : v \in DOMAIN p.vals /\ np.vals[v].jailed /\ ~p.vals[v].jailed }
+                       ELSE {}
+        js == SumOver(jailedNow, [ v \in DOMAIN p.vals |-> p.vals[v].lp ])
+    IN [g1 EXCEPT !.firstStop = fs, !.jailSum = g1.jailSum + js,
+                  !.maxJ = IF js > g1.maxJ THEN js ELSE g1.maxJ]
 
 Init ==
   /\ l = 1
@@ -94,7 +142,7 @@ Next ==
      /\ IF e.a = "Init" THEN p' = e.s /\ cs' = << >>
         ELSE IF IsProv(e) THEN p' = (IF Same(e) THEN p ELSE e.s) /\ cs' = cs
         ELSE p' = p /\ cs' = (IF Same(e) THEN cs ELSE (e.chain :> e.s) @@ cs)
-     /\ g' = NextG(e, IF IsProv(e) /\ ~Same(e) THEN e.s ELSE p)
+     /\ LET np == IF IsProv(e) /\ ~Same(e) THEN e.s ELSE p IN g' = NextG2(e, np, NextG(e, np))
 
 Spec == Init /\ [][Next]_vars
 
@@ -372,5 +420,491 @@ C15_Diff == [][
 C15_OnlyThere == [][
   PStep => ((p'.lps # p.lps) => Ev.a = "PEndProvVals")
   ]_vars
+
+
+(* ======================================================================= *)
+(* C05  a consumer consensus key never belongs to two validators            *)
+(* ======================================================================= *)
+
+ActivePhase(ph) == ph \in { "registered", "initialized", "launched" }
+KeyOwners(s, c, k) ==
+  { v \in DOMAIN s.cons[c].valKey : s.cons[c].valKey[v] = k }
+  \cup (IF k \in DOMAIN s.cons[c].keyVal THEN { s.cons[c].keyVal[k] } ELSE {})
+  \cup { v \in DOMAIN s.vals : s.vals[v].pk = k }
+KeysOf(s, c) == Range(s.cons[c].valKey) \cup DOMAIN s.cons[c].keyVal \cup { s.vals[v].pk : v \in DOMAIN s.vals }
+
+C05_Injective ==
+  (IsProv(E) /\ E.a # "Init") =>
+    \A c \in Cons(p) : ActivePhase(p.cons[c].phase) =>
+      \A k \in KeysOf(p, c) : Cardinality(KeyOwners(p, c, k)) <= 1
+
+\* an assignment (own operator signing) is accepted exactly when the key is free for that validator
+C05_Reject == [][
+  (PStep /\ (Txn(Ev, "AssignKey") \/ (Txn(Ev, "OptIn") /\ Has(Ev.args, "key")))
+         /\ ~Has(Ev.args, "signer") /\ Ev.args.c \in Cons(p) /\ Ev.args.v \in DOMAIN p.vals) =>
+    LET c == Ev.args.c  v == Ev.args.v  k == Ev.args.key  r == p.cons[c]
+        free == /\ ActivePhase(r.phase)
+                /\ ~\E v2 \in DOMAIN p.vals : v2 # v /\ p.vals[v2].pk = k
+                /\ ~(p.vals[v].pk = k /\ v \notin DOMAIN r.valKey)
+                /\ k \notin DOMAIN r.keyVal IN
+    /\ OkTx(Ev) <=> free
+    /\ OkTx(Ev) => /\ p'.cons[c].valKey[v] = k /\ p'.cons[c].keyVal[k] = v
+                   /\ \A v2 \in DOMAIN r.valKey : v2 # v => p'.cons[c].valKey[v2] = r.valKey[v2]
+    /\ ~OkTx(Ev) => p'.dig.all = p.dig.all
+  ]_vars
+
+\* a validator cannot be created with a key that is known on an active consumer
+C05_Create == [][
+  (PStep /\ Txn(Ev, "CreateValidator")) =>
+    LET k == Ev.args.key
+        known == \E c \in Cons(p) : ActivePhase(p.cons[c].phase) /\ k \in DOMAIN p.cons[c].keyVal IN
+    known => (~OkTx(Ev) /\ ~\E v \in DOMAIN p'.vals : p'.vals[v].pk = k /\ v \notin DOMAIN p.vals)
+  ]_vars
+
+(* ======================================================================= *)
+(* C06  replaced consumer keys stay attributable for the unbonding period   *)
+(* ======================================================================= *)
+
+Resolve(s, c, k) ==
+  IF k \in DOMAIN s.cons[c].keyVal THEN s.cons[c].keyVal[k]
+  ELSE IF \E v \in DOMAIN s.vals : s.vals[v].pk = k THEN CHOOSE v \in DOMAIN s.vals : s.vals[v].pk = k
+  ELSE "nobody"
+
+C06_Attributable ==
+  (IsProv(E) /\ E.a # "Init") =>
+    \A r \in g.replaced :
+      (r.c \in Cons(p) /\ p.cons[r.c].phase \in {"launched", "stopped"} /\ p.t < r.until /\ r.v \in DOMAIN p.vals)
+        => Resolve(p, r.c, r.k) = r.v
+
+\* at the first end-block at or after the deadline the key is forgotten
+C06_Free == [][
+  (PStep /\ Ev.a = "PEndCIS") =>
+    \A r \in g.replaced :
+      (r.until <= p'.t /\ r.c \in Cons(p') /\ p'.cons[r.c].phase = "launched")
+        => (r.k \notin DOMAIN p'.cons[r.c].keyVal \/ \E v \in DOMAIN p'.cons[r.c].valKey : p'.cons[r.c].valKey[v] = r.k)
+  ]_vars
+
+\* the prune list and the reverse index agree: every key scheduled for pruning is still resolvable
+C06_PruneListed ==
+  (IsProv(E) /\ E.a # "Init") =>
+    \A c \in Cons(p) : \A i \in DOMAIN p.cons[c].toPrune :
+      \A k \in SeqToSet(p.cons[c].toPrune[i].keys) : k \in DOMAIN p.cons[c].keyVal
+
+(* ======================================================================= *)
+(* C10  lifecycle: ids, phase machine, launch schedule                      *)
+(* ======================================================================= *)
+
+ConsName(i) == "c" \o ToString(i)
+
+C10_Ids == [][
+  PStep =>
+    /\ p'.nextId \in { p.nextId, p.nextId + 1 }
+    /\ Cons(p') = { ConsName(i) : i \in 0..(p'.nextId - 1) }
+    /\ (p'.nextId = p.nextId + 1) <=> (Txn(Ev, "CreateConsumer") /\ OkTx(Ev))
+    /\ (Txn(Ev, "CreateConsumer") /\ OkTx(Ev)) => Ev.res.newId = ConsName(p.nextId)
+  ]_vars
+
+C10_PhaseStep == [][
+  PStep =>
+    \A c \in Cons(p') :
+      <<IF c \in Cons(p) THEN p.cons[c].phase ELSE "none", p'.cons[c].phase>> \in PhaseEdges
+  ]_vars
+
+\* which events may move a phase
+C10_PhaseCause == [][
+  PStep =>
+    \A c \in Cons(p) \cap Cons(p') :
+      LET a == p.cons[c].phase  b == p'.cons[c].phase IN
+      (a # b) =>
+        CASE b = "launched"    -> Ev.a = "PLaunchOK" /\ Ev.args.c = c
+          [] b = "deleted"     -> Ev.a = "PRemoveOK" /\ Ev.args.c = c
+          [] b = "initialized" -> Txn(Ev, "UpdateConsumer") /\ OkTx(Ev) /\ Ev.args.c = c
+          [] b = "registered"  -> (Ev.a = "PLaunchFail" /\ Ev.args.c = c) \/ (Txn(Ev, "UpdateConsumer") /\ OkTx(Ev) /\ Ev.args.c = c)
+          [] b = "stopped"     -> \/ (Txn(Ev, "RemoveConsumer") /\ OkTx(Ev) /\ Ev.args.c = c)
+                                  \/ ((Txn(Ev, "Ack") \/ Txn(Ev, "Timeout")) /\ OkTx(Ev) /\ Ev.args.c = c)
+                                  \/ (Ev.a = "PSendVSC" /\ Ev.args.c = c)
+          [] OTHER -> FALSE
+  ]_vars
+
+C10_InitIffSpawn ==
+  (IsProv(E) /\ E.a # "Init") =>
+    \A c \in Cons(p) :
+      (p.cons[c].phase \in {"registered", "initialized"}) => ((p.cons[c].phase = "initialized") <=> p.cons[c].spawnSet)
+
+OccursAt(q, c, t) == \E i \in DOMAIN q : q[i].t = t /\ c \in SeqToSet(q[i].ids)
+Occurrences(q, c) == FoldSet(LAMBDA i, acc : acc + Cardinality({ j \in DOMAIN q[i].ids : q[i].ids[j] = c }), 0, DOMAIN q)
+
+\* outside the launch step itself, a consumer is queued exactly once, at its spawn time, iff it is initialized
+C10_QueueExact ==
+  (IsProv(E) /\ E.a \notin {"Init", "PLaunchDue", "PLaunchOK", "PLaunchFail"}) =>
+    \A c \in Cons(p) :
+      IF p.cons[c].phase = "initialized"
+        THEN Occurrences(p.launchQ, c) = 1 /\ OccursAt(p.launchQ, c, p.cons[c].spawn)
+        ELSE Occurrences(p.launchQ, c) = 0
+
+\* all due consumers (at most 200, in queue order) are processed in the block in which they are due
+C10_LaunchWhenDue == [][
+  PStep =>
+    /\ (Ev.a = "PLaunchDue") =>
+         LET due == FlattenDue(p.launchQ, p'.t) IN
+         /\ QueuedIds(p'.launchQ) = QueuedIds(p.launchQ) \ SeqToSet(Take(due, 200))
+         /\ (Len(due) <= 200) => \A i \in DOMAIN p'.launchQ : p'.launchQ[i].t > p'.t
+    /\ (Ev.a \in {"PLaunchOK", "PLaunchFail"}) =>
+         /\ g.nLaunch < Len(g.dueSeq)
+         /\ Ev.args.c = g.dueSeq[g.nLaunch + 1]
+    /\ (Ev.a = "PBeginLaunch") => g.nLaunch = Len(g.dueSeq)
+  ]_vars
+
+C10_LaunchOutcome == [][
+  PStep =>
+    /\ (Ev.a = "PLaunchOK") =>
+         LET r == p'.cons[Ev.args.c] IN
+         /\ r.phase = "launched" /\ r.genesis.present /\ r.client # "" /\ DOMAIN r.cvs # {}
+         /\ \E v \in DOMAIN r.cvs : v \in ActiveRec(p') \cup ActiveIdx(p')
+         /\ r.client \in SeqToSet(p'.clients)
+    /\ (Ev.a = "PLaunchFail") =>
+         LET r == p'.cons[Ev.args.c] IN
+         /\ r.phase = "registered" /\ ~r.spawnSet /\ ~r.genesis.present /\ r.client = "" /\ DOMAIN r.cvs = {}
+  ]_vars
+
+(* ======================================================================= *)
+(* C13  consumers are isolated from one another                             *)
+(* ======================================================================= *)
+
+DigOf(s, c) == IF c \in DOMAIN s.dig.cons THEN s.dig.cons[c] ELSE "none"
+NamesConsumer(e) == Has(e.args, "c") /\ (e.a \in {"PLaunchOK", "PLaunchFail", "PRemoveOK", "PRemoveFail", "PQueueVSC", "PSendVSC", "PAllocateOK", "PAllocateFail"}
+                                          \/ SubSeq(e.a, 1, 3) = "Tx:")
+
+\* a step that concerns consumer c leaves every other consumer's abstract record and raw store keys untouched
+C13_Frame == [][
+  (PStep /\ NamesConsumer(Ev)) =>
+    \A c2 \in Cons(p) \cap Cons(p') :
+      (c2 # Ev.args.c) => (p'.cons[c2] = p.cons[c2] /\ DigOf(p', c2) = DigOf(p, c2))
+  ]_vars
+
+\* creating a consumer, and transactions that concern no consumer, touch no existing consumer
+C13_FrameOthers == [][
+  (PStep /\ SubSeq(Ev.a, 1, 3) = "Tx:" /\ ~Has(Ev.args, "c")) =>
+    \A c2 \in Cons(p) \cap Cons(p') : (p'.cons[c2] = p.cons[c2] /\ DigOf(p', c2) = DigOf(p, c2))
+  ]_vars
+
+(* ======================================================================= *)
+(* C14  authority                                                           *)
+(* ======================================================================= *)
+
+C14_Owner == [][
+  PStep =>
+    /\ ((Txn(Ev, "UpdateConsumer") \/ Txn(Ev, "RemoveConsumer")) /\ OkTx(Ev)) =>
+         (Ev.args.c \in Cons(p) /\ Ev.args.sender = p.cons[Ev.args.c].owner)
+    /\ \A c \in Cons(p) \cap Cons(p') :
+         (p'.cons[c].owner # p.cons[c].owner) =>
+           /\ Txn(Ev, "UpdateConsumer") /\ OkTx(Ev) /\ Ev.args.c = c
+           /\ Has(Ev.args, "newOwner") /\ p'.cons[c].owner = Ev.args.newOwner
+    /\ (Txn(Ev, "CreateConsumer") /\ OkTx(Ev)) => p'.cons[Ev.res.newId].owner = Ev.args.sender
+  ]_vars
+
+C14_TopN ==
+  (IsProv(E) /\ E.a # "Init") =>
+    \A c \in Cons(p) : (p.cons[c].topN # 0) => (p.cons[c].owner = "gov" /\ p.cons[c].topN \in 50..100)
+
+C14_Create == [][
+  (PStep /\ Txn(Ev, "CreateConsumer") /\ Has(Ev.args, "shaping") /\ Has(Ev.args.shaping, "topN")) =>
+    (Ev.args.shaping.topN # 0 => ~OkTx(Ev))
+  ]_vars
+
+C14_Authority == [][
+  PStep =>
+    /\ ((Txn(Ev, "UpdateParams") \/ Txn(Ev, "ChangeRewardDenoms")) /\ OkTx(Ev)) => Ev.args.authority = "gov"
+    /\ (p'.M # p.M \/ p'.bpe # p.bpe \/ p'.epochsToReward # p.epochsToReward) => (Txn(Ev, "UpdateParams") /\ OkTx(Ev))
+    /\ (p'.regDenoms # p.regDenoms) => (Txn(Ev, "ChangeRewardDenoms") /\ OkTx(Ev))
+  ]_vars
+
+ValidatorMsg(e) == Txn(e, "OptIn") \/ Txn(e, "OptOut") \/ Txn(e, "AssignKey") \/ Txn(e, "SetCommission")
+OperatorOf(v) == "op" \o SubSeq(v, 2, Len(v))
+
+C14_Validator == [][
+  (PStep /\ ValidatorMsg(Ev) /\ OkTx(Ev)) =>
+    LET c == Ev.args.c  v == Ev.args.v  r == p.cons[c]  r2 == p'.cons[c] IN
+    /\ (Has(Ev.args, "signer") => Ev.args.signer = OperatorOf(v))
+    /\ (SeqToSet(r2.optedIn) \ SeqToSet(r.optedIn)) \cup (SeqToSet(r.optedIn) \ SeqToSet(r2.optedIn)) \subseteq {v}
+    /\ \A v2 \in (DOMAIN r.valKey \cup DOMAIN r2.valKey) \ {v} :
+         v2 \in DOMAIN r.valKey /\ v2 \in DOMAIN r2.valKey /\ r.valKey[v2] = r2.valKey[v2]
+    /\ \A v2 \in (DOMAIN r.commission \cup DOMAIN r2.commission) \ {v} :
+         v2 \in DOMAIN r.commission /\ v2 \in DOMAIN r2.commission /\ r.commission[v2] = r2.commission[v2]
+  ]_vars
+
+\* a rejected transaction leaves the provider module's store unchanged
+C14_RejectedUnchanged == [][
+  (PStep /\ SubSeq(Ev.a, 1, 3) = "Tx:" /\ ~OkTx(Ev)) => p'.dig.all = p.dig.all
+  ]_vars
+
+(* ======================================================================= *)
+(* C19  block processing never fails; failing consumer operations roll back *)
+(* ======================================================================= *)
+
+\* (a provider whose last validator has just left has no consensus set to run with: that is the environment's
+\*  precondition, not a property of the code, and the harness avoids it; it is tolerated here to be safe)
+C19_NoBlockError == (E.a = "BlockError") => (IsProv(E) /\ Bonded(p) = {})
+
+\* a failed launch changes nothing but phase and spawn time of that consumer
+C19_LaunchRollback == [][
+  (PStep /\ Ev.a = "PLaunchFail") =>
+    LET c == Ev.args.c  r == p.cons[c]  r2 == p'.cons[c] IN
+    /\ r2 = [r EXCEPT !.phase = "registered", !.spawn = 0, !.spawnSet = FALSE]
+    /\ \A c2 \in Cons(p) : c2 # c => (p'.cons[c2] = p.cons[c2] /\ DigOf(p', c2) = DigOf(p, c2))
+    /\ p'.dig.rest = p.dig.rest
+    /\ p'.clients = p.clients
+    /\ p'.cl2c = p.cl2c /\ p'.ch2c = p.ch2c
+  ]_vars
+
+\* a failed removal leaves the consumer stopped and intact; a failed allocation leaves credits and pool intact
+C19_RemoveRollback == [][
+  (PStep /\ Ev.a = "PRemoveFail") => (p'.cons = p.cons /\ p'.dig.all = p.dig.all /\ p'.chans = p.chans)
+  ]_vars
+C19_AllocateRollback == [][
+  (PStep /\ Ev.a = "PAllocateFail") => (p'.cons = p.cons /\ p'.pool = p.pool /\ p'.dig.all = p.dig.all /\ p'.dig.distr = p.dig.distr)
+  ]_vars
+
+(* ======================================================================= *)
+(* C20  infraction parameters                                               *)
+(* ======================================================================= *)
+
+MergeInfr(cur, req) ==
+  [ ds |-> IF Has(req, "ds") THEN req.ds ELSE cur.ds, dt |-> IF Has(req, "dt") THEN req.dt ELSE cur.dt ]
+\* compare a requested parameter record with an observed one (fractions are compared as numbers of 1/10^4)
+SameSJ(a, b) == a.jail = b.jail /\ a.tomb = b.tomb /\ a.frac = b.frac
+SameInfr(a, b) == SameSJ(a.ds, b.ds) /\ SameSJ(a.dt, b.dt)
+
+C20_Update == [][
+  (PStep /\ Txn(Ev, "UpdateConsumer") /\ OkTx(Ev) /\ Has(Ev.args, "infr")) =>
+    LET c == Ev.args.c  r == p.cons[c]  r2 == p'.cons[c]
+        want == MergeInfr(r.infr.v, Ev.args.infr) IN
+    IF r.phase \in {"registered", "initialized"}
+      THEN r2.infr.present /\ SameInfr(r2.infr.v, want) /\ ~r2.infrQd.present
+      ELSE /\ r2.infr = r.infr
+           /\ IF SameInfr(want, r.infr.v) THEN ~r2.infrQd.present
+              ELSE r2.infrQd.present /\ SameInfr(r2.infrQd.v.p, want) /\ r2.infrQd.v.due = p'.t + p'.U
+  ]_vars
+
+\* at most one pending change per consumer, scheduled exactly once at its due time
+C20_OnePending ==
+  (IsProv(E) /\ E.a # "Init") =>
+    \A c \in Cons(p) :
+      IF p.cons[c].infrQd.present
+        THEN Occurrences(p.infrQ, c) = 1 /\ OccursAt(p.infrQ, c, p.cons[c].infrQd.v.due)
+        ELSE Occurrences(p.infrQ, c) = 0
+
+\* current parameters change only by an immediate pre-launch update or by applying the queued record when due
+C20_Apply == [][
+  PStep =>
+    /\ \A c \in Cons(p) \cap Cons(p') :
+         (p'.cons[c].infr # p.cons[c].infr) =>
+           \/ (Txn(Ev, "UpdateConsumer") /\ OkTx(Ev) /\ Ev.args.c = c /\ p.cons[c].phase \in {"registered", "initialized"})
+           \/ ( /\ Ev.a = "PBeginInfraction" /\ p.cons[c].infrQd.present /\ p.cons[c].infrQd.v.due <= p'.t
+                /\ p'.cons[c].infr.v = p.cons[c].infrQd.v.p /\ ~p'.cons[c].infrQd.present )
+    /\ (Ev.a = "PBeginInfraction") =>
+         LET due == FlattenDue(p.infrQ, p'.t) IN
+         (Len(due) <= 200) => \A i \in DOMAIN p'.infrQ : p'.infrQ[i].t > p'.t
+    /\ (Ev.a = "PRemoveOK") => ~p'.cons[Ev.args.c].infrQd.present
+  ]_vars
+
+
+(* ======================================================================= *)
+(* C08  downtime reports jail exactly the right validator; acknowledgements *)
+(* ======================================================================= *)
+
+SlashRecv(e) == Txn(e, "Recv") /\ OkTx(e) /\ Has(e.res, "recv") /\ Len(e.res.recv) = 1 /\ e.res.recv[1].type = "slash"
+IdKnown(s, c, id) == IF id = 0 THEN s.cons[c].initChainH.present ELSE Has(s.v2h, ToString(id))
+SlashRec(s, c, pkt) ==
+  LET tgt == Resolve(s, c, pkt.key)  ex == tgt \in DOMAIN s.vals IN
+  [ wellFormed |-> TRUE, idKnown |-> IdKnown(s, c, pkt.id), doubleSign |-> pkt.inf = "doublesign",
+    launched |-> s.cons[c].phase = "launched", inSet |-> tgt \in DOMAIN s.cons[c].cvs,
+    meterNeg |-> s.meter < 0, exists |-> ex,
+    unbonded |-> ex /\ s.vals[tgt].st = "unbonded", tombstoned |-> ex /\ s.vals[tgt].tomb, jailed |-> ex /\ s.vals[tgt].jailed ]
+JailView(x) == <<x.jailed, x.tomb, x.ju, x.st>>
+
+C08_Outcome == [][
+  (PStep /\ SlashRecv(Ev)) =>
+    LET c == Ev.args.c  pkt == Ev.res.recv[1]  tgt == Resolve(p, c, pkt.key)
+        out == SlashOutcome(SlashRec(p, c, pkt)) IN
+    /\ Has(Ev.res, "acks") /\ Len(Ev.res.acks) = 1 /\ Ev.res.acks[1] = out.ack
+    \* C08_Iff: the target is jailed in this step iff the outcome says so
+    /\ (tgt \in DOMAIN p.vals) => ((p'.vals[tgt].jailed /\ ~p.vals[tgt].jailed) <=> out.punish)
+    \* C08_OnlyTarget: nobody else's jailing state changes
+    /\ \A v \in DOMAIN p.vals : (v # tgt) => (v \in DOMAIN p'.vals /\ JailView(p'.vals[v]) = JailView(p.vals[v]))
+    /\ (~out.punish /\ tgt \in DOMAIN p.vals) => p'.vals[tgt] = p.vals[tgt]
+    \* C08_AckQueued
+    /\ p'.cons[c].slashAcks = (IF out.sack THEN Append(p.cons[c].slashAcks, pkt.key) ELSE p.cons[c].slashAcks)
+    \* C09_Admit / C09_Deduct
+    /\ p'.meter = (IF out.deduct THEN p.meter - (IF tgt \in DOMAIN p.vals /\ ~p.vals[tgt].jailed THEN p.vals[tgt].lp ELSE 0) ELSE p.meter)
+    /\ (out.ack \in {"bounced", "error", "v1"}) => (p'.vals = p.vals /\ p'.cons = p.cons)
+  ]_vars
+
+\* C20_Used: a punishment uses the consumer's own downtime parameters as in force at handling time
+C08_Params == [][
+  (PStep /\ SlashRecv(Ev)) =>
+    LET c == Ev.args.c  pkt == Ev.res.recv[1]  tgt == Resolve(p, c, pkt.key) IN
+    (tgt \in DOMAIN p.vals /\ p'.vals[tgt].jailed /\ ~p.vals[tgt].jailed) =>
+      /\ p.cons[c].infr.present
+      /\ p'.vals[tgt].ju = p'.t + p.cons[c].infr.v.dt.jail
+      /\ (p.cons[c].infr.v.dt.frac = "0.000000000000000000") => p'.vals[tgt].tok = p.vals[tgt].tok
+      /\ p'.vals[tgt].tok <= p.vals[tgt].tok
+      /\ ~p'.vals[tgt].tomb
+  ]_vars
+
+\* the next packet queued for the consumer carries exactly the accumulated acks and clears them
+C08_AckCarried == [][
+  (PStep /\ Ev.a = "PQueueVSC") =>
+    LET c == Ev.args.c  pend == p.cons[c].pendingVSC  pend2 == p'.cons[c].pendingVSC IN
+    IF Len(pend2) = Len(pend) + 1
+      THEN Last(pend2).acks = p.cons[c].slashAcks /\ p'.cons[c].slashAcks = << >>
+      ELSE p'.cons[c].slashAcks = p.cons[c].slashAcks
+  ]_vars
+
+\* slash acks change nowhere else
+C08_AckOnlyThere == [][
+  PStep =>
+    \A c \in Cons(p) \cap Cons(p') :
+      (p'.cons[c].slashAcks # p.cons[c].slashAcks) =>
+        \/ (SlashRecv(Ev) /\ Ev.args.c = c) \/ (Ev.a = "PQueueVSC" /\ Ev.args.c = c) \/ (Ev.a = "PRemoveOK" /\ Ev.args.c = c)
+  ]_vars
+
+\* consumer: at most one downtime report per key queued or in flight; the flag is set while one is outstanding
+DowntimeIdx(st, k) == { i \in DOMAIN st.pending : st.pending[i].type = "slash" /\ st.pending[i].inf = "downtime" /\ st.pending[i].key = k }
+\* a report that was not sent yet has its flag set; the only other report for the same key that may still be queued is
+\* the head packet that was sent and already answered through a validator-set packet, while its IBC ack is in flight
+C08_Outstanding ==
+  (~IsProv(E) /\ E.a # "Init" /\ E.chain \in DOMAIN cs /\ E.chain \notin g.forged) =>
+    LET st == cs[E.chain] IN
+    \A k \in { st.pending[i].key : i \in DOMAIN st.pending } :
+      LET idx == DowntimeIdx(st, k) IN
+      /\ Cardinality(idx) <= 2
+      /\ \A i \in idx : (i = 1 /\ st.slashRec.present) \/ k \in SeqToSet(st.outstanding)
+      /\ (Cardinality(idx) = 2) => (1 \in idx /\ st.slashRec.present)
+
+\* the flag is cleared only by an acknowledgement carried in a validator-set packet, or when the key (re)joins the set
+C08_FlagCleared == [][
+  (CStep /\ Ev.chain \in DOMAIN cs) =>
+    LET a == SeqToSet(cs[Ev.chain].outstanding)  b == SeqToSet(cs'[Ev.chain].outstanding) IN
+    (a \ b # {}) =>
+      \/ /\ Txn(Ev, "Recv") /\ OkTx(Ev) /\ Has(Ev.res, "recv")
+         /\ a \ b \subseteq UNION { SeqToSet(Ev.res.recv[i].acks) : i \in { j \in DOMAIN Ev.res.recv : Ev.res.recv[j].type = "vsc" } }
+      \/ /\ Ev.a = "Block"
+         /\ \A k \in a \ b : k \notin DOMAIN cs[Ev.chain].ccv /\ k \in DOMAIN cs'[Ev.chain].ccv
+  ]_vars
+
+(* ======================================================================= *)
+(* C09  throttle: meter bounds on the provider, standby and retry on the    *)
+(*      consumer                                                            *)
+(* ======================================================================= *)
+
+C09_MeterLeAllowance == [][ (PStep /\ Ev.a = "PBeginCIS") => p'.meter <= p'.allow ]_vars
+
+C09_OncePerPeriod == [][
+  PStep =>
+    /\ (p'.meter > p.meter) => (Ev.a = "PBeginCIS" /\ p'.meter - p.meter <= p'.allow /\ p'.t >= g.lastRepl + p.replPer)
+    \* the meter only falls by handling a report, or by being capped when the allowance itself has shrunk
+    /\ (p'.meter < p.meter) => (SlashRecv(Ev) \/ (Ev.a = "PBeginCIS" /\ p'.meter = p'.allow))
+    /\ p'.allow >= 1
+  ]_vars
+
+\* power jailed on behalf of consumers is bounded by what the meter handed out plus one validator
+C09_Window == (IsProv(E) /\ E.a # "Init") => g.jailSum <= Max2(g.meter0, 0) + g.replSum + g.maxJ
+
+\* consumer: sending is permitted iff no slash record, or not waiting and the retry delay has passed
+SendPermitted(st) == ~st.slashRec.present \/ (~st.slashRec.v.waiting /\ st.t > st.slashRec.v.sent + st.retryDelay)
+CCVSent(e, st) == SelectSeq(e.res.sent, LAMBDA x : x.chan = st.provChan /\ x.type \in {"slash", "matured"})
+
+C09_Standby == [][
+  (CStep /\ Ev.a = "CEndSend" /\ Ev.chain \in DOMAIN cs) =>
+    LET st == cs[Ev.chain]  st2 == cs'[Ev.chain] IN
+    /\ (~SendPermitted(st)) => (st2.pending = st.pending /\ st2.slashRec = st.slashRec)
+    \* a slash packet at the head stays there when sent; packets behind it are not sent in the same block
+    /\ (SendPermitted(st) /\ st.provChan # "" /\ st.pending # << >> /\ st.pending[1].type = "slash") =>
+         (st2.pending = st.pending \/ st2.pending = st.pending)   \* queue unchanged (head stays), see C09_HeadStays
+  ]_vars
+
+\* the head slash packet leaves the queue only by a v1 / handled acknowledgement
+C09_HeadStays == [][
+  (CStep /\ Ev.chain \in DOMAIN cs) =>
+    LET st == cs[Ev.chain]  st2 == cs'[Ev.chain] IN
+    (st.pending # << >> /\ st.pending[1].type = "slash" /\ (st2.pending = << >> \/ st2.pending[1] # st.pending[1] \/ Len(st2.pending) < Len(st.pending))) =>
+      (Txn(Ev, "Ack") /\ OkTx(Ev))
+  ]_vars
+
+\* nothing is dropped from behind the head either: the queue only grows at the tail or shrinks at the head
+C09_QueueFifo == [][
+  (CStep /\ Ev.chain \in DOMAIN cs) =>
+    LET a == cs[Ev.chain].pending  b == cs'[Ev.chain].pending IN
+    \E d \in 0..Len(a) : Len(b) >= Len(a) - d /\ SubSeq(b, 1, Len(a) - d) = SubSeq(a, d + 1, Len(a))
+  ]_vars
+
+(* ======================================================================= *)
+(* C11  stopped consumers get no updates and are removed after unbonding    *)
+(* ======================================================================= *)
+
+StoppedBoth(c) == c \in Cons(p) /\ c \in Cons(p') /\ p.cons[c].phase = "stopped" /\ p'.cons[c].phase = "stopped"
+
+C11_NoUpdates == [][
+  PStep =>
+    /\ \A c \in Cons(p) : StoppedBoth(c) =>
+         /\ p'.cons[c].cvs = p.cons[c].cvs /\ p'.cons[c].pendingVSC = p.cons[c].pendingVSC
+         /\ p'.cons[c].valKey = p.cons[c].valKey \/ SubSeq(Ev.a, 1, 3) = "Tx:"
+         /\ p'.cons[c].client = p.cons[c].client /\ p'.cons[c].client # ""
+         /\ p'.cons[c].minEvH = p.cons[c].minEvH /\ p'.cons[c].genesis = p.cons[c].genesis
+    /\ (Ev.a = "Block") =>
+         \A c \in Cons(p') : (p'.cons[c].phase \in {"stopped", "deleted"} /\ c \in Cons(p) /\ p.cons[c].phase \in {"stopped", "deleted"} /\ p.cons[c].chan # "") =>
+           SelectSeq(Ev.res.sent, LAMBDA x : x.type = "vsc" /\ x.chan = p.cons[c].chan) = << >>
+    /\ (Ev.a \in {"PQueueVSC", "PSendVSC"}) => p.cons[Ev.args.c].phase = "launched"
+  ]_vars
+
+\* every stop schedules removal one unbonding period later
+C11_Stops == [][
+  PStep =>
+    \A c \in Cons(p) \cap Cons(p') :
+      (p.cons[c].phase = "launched" /\ p'.cons[c].phase = "stopped") =>
+        /\ p'.cons[c].removalT.present /\ p'.cons[c].removalT.v = p'.t + p'.U
+        /\ OccursAt(p'.removeQ, c, p'.t + p'.U)
+  ]_vars
+
+\* deletion happens in the first block at or after the scheduled time, never before first stop + U, at most 200 a block
+C11_RemoveWhenDue == [][
+  PStep =>
+    /\ (Ev.a = "PRemoveOK") =>
+         /\ Ev.args.c \in DOMAIN g.firstStop /\ p'.t >= g.firstStop[Ev.args.c]
+         /\ p.cons[Ev.args.c].phase = "stopped" /\ p'.cons[Ev.args.c].phase = "deleted"
+    /\ (Ev.a = "PRemoveDue") =>
+         LET due == FlattenDue(p.removeQ, p'.t) IN
+         (Len(due) <= 200) => \A i \in DOMAIN p'.removeQ : p'.removeQ[i].t > p'.t
+    /\ (Ev.a \in {"PRemoveOK", "PRemoveFail"}) => (g.nRemove < Len(g.remSeq) /\ Ev.args.c = g.remSeq[g.nRemove + 1])
+    /\ (Ev.a = "PBeginRemove") => g.nRemove = Len(g.remSeq)
+  ]_vars
+
+\* 52: a consumer stopped more than once (several timed-out packets) keeps a later removal-queue entry, which is
+\* consumed harmlessly when due; the statement does not list the removal schedule among the deleted state
+RetainedPrefixes == { 44, 45, 46, 47, 48, 49, 52, 54, 55, 57 }
+C11_Residue == [][
+  (PStep /\ Ev.a = "PRemoveOK") =>
+    LET c == Ev.args.c  r == p'.cons[c] IN
+    /\ r.client = "" /\ r.chan = "" /\ ~r.genesis.present /\ r.cvs = << >> /\ r.optedIn = << >>
+    /\ r.valKey = << >> /\ r.keyVal = << >> /\ r.toPrune = << >> /\ r.pendingVSC = << >> /\ r.slashAcks = << >>
+    /\ r.allowL = << >> /\ r.denyL = << >> /\ r.prioL = << >> /\ r.commission = << >>
+    /\ ~r.infrQd.present /\ ~r.removalT.present /\ ~r.minPow.present /\ ~r.initChainH.present /\ r.minEvH = 0
+    /\ \A k \in DOMAIN p'.cl2c : p'.cl2c[k] # c
+    /\ \A k \in DOMAIN p'.ch2c : p'.ch2c[k] # c
+    /\ (c \in DOMAIN p'.dig.prefixes) => SeqToSet(p'.dig.prefixes[c]) \subseteq RetainedPrefixes
+    /\ Occurrences(p'.infrQ, c) = 0
+    \* descriptive records are retained
+    /\ r.chain = p.cons[c].chain /\ r.owner = p.cons[c].owner /\ r.topN = p.cons[c].topN
+    \* the provider's channel end is closed (tolerated: open if the consumer's light client had expired)
+    /\ (p.cons[c].chan # "" /\ p.cons[c].chan \in DOMAIN p'.chans) =>
+         p'.chans[p.cons[c].chan].state \in {"STATE_CLOSED", "STATE_OPEN"}
+  ]_vars
+
+\* a deleted consumer never becomes active again and gets no key/opt-in state
+C11_DeletedStaysEmpty ==
+  (IsProv(E) /\ E.a # "Init") =>
+    \A c \in Cons(p) : p.cons[c].phase = "deleted" =>
+      (p.cons[c].cvs = << >> /\ p.cons[c].optedIn = << >> /\ p.cons[c].valKey = << >> /\ p.cons[c].client = "")
 
 =============================================================================
